@@ -138,7 +138,7 @@ def build_proofs(pid):
     return res
 
 
-def build_harness():
+def build_harness(race=False):
     os.makedirs(os.path.join(WORK, 'bin'), exist_ok=True)
     with Lock('go.lock'):
         th = tree_hash()
@@ -148,7 +148,7 @@ def build_harness():
                 hh.update(open(p, 'rb').read())
         hh.update(REPO.encode())
         key = th + '-' + hh.hexdigest()[:12]
-        binp = os.path.join(WORK, 'bin', 'harness-%s.test' % key)
+        binp = os.path.join(WORK, 'bin', 'harness-%s%s.test' % (key, '-race' if race else ''))
         if os.path.exists(binp):
             return True, binp, ''
         for old in glob.glob(os.path.join(WORK, 'bin', 'harness-*.test')):
@@ -160,7 +160,7 @@ def build_harness():
         want = re.sub(r'(replace git\.sr\.ht/~adrian-blx/psa-dhcp => ).*', r'\g<1>' + REPO, want)
         if want != open(gm).read():
             open(gm, 'w').write(want)
-        rc, out = run(['go1.26.8', 'test', '-c', '-tags', 'verif', '-o', binp + '.tmp', '.'], 900,
+        rc, out = run(['go1.26.8', 'test', '-c'] + (['-race'] if race else []) + ['-tags', 'verif', '-o', binp + '.tmp', '.'], 1800,
                       cwd=os.path.join(VERIF, 'harness'), env=GOENV)
         if rc != 0:
             return False, None, out[-6000:]
@@ -270,6 +270,10 @@ def evaluate(prop, outdir):
         mp = cf[:-6] + '.meta.json'
         if os.path.exists(mp):
             metas[os.path.basename(cf)[:-6]] = json.load(open(mp))
+    for dp in sorted(glob.glob(os.path.join(outdir, '*.direct.json'))):
+        dm = json.load(open(dp))
+        total += int(dm.get('cases', 0))
+        metas[os.path.basename(dp)[:-12]] = dm
     viol_files = sorted(glob.glob(os.path.join(outdir, '*.violations.json')))
     direct = []
     for vf in viol_files:
@@ -332,6 +336,24 @@ def main():
         log('harness run failed (rc=%d):\n%s' % (rc, gout[-6000:]))
         shutil.rmtree(outdir, ignore_errors=True)
         return 2
+    race_note = None
+    if prop.get('race'):
+        okr, rbin, rtxt = build_harness(race=True)
+        if okr:
+            rdir = outdir + '-race'
+            rprop = dict(prop, tests=prop.get('race_tests', ['TestC09Burst', 'TestC09ConcurrentDB', 'TestServerHistories']))
+            rrc, rout = run_generators(rbin, rprop, rdir, seed, tier, extra_env={'VERIF_RACE': '1'})
+            nraces = rout.count('WARNING: DATA RACE')
+            race_note = dict(races=nraces, rc=rrc)
+            if nraces or rrc != 0:
+                os.makedirs(outdir, exist_ok=True)
+                i0 = rout.find('WARNING: DATA RACE')
+                with open(os.path.join(outdir, 'race.violations.json'), 'w') as f:
+                    json.dump([dict(tag=0, kind='data-race' if nraces else 'race-run-failed', case=rout[max(i0, 0):max(i0, 0) + 4000] if nraces else rout[-3000:])], f)
+            shutil.rmtree(rdir, ignore_errors=True)
+        else:
+            log('race build failed:\n' + rtxt)
+            return 2
     ev = evaluate(prop, outdir)
     harness_fail = rc != 0
     known = load_known()
@@ -430,7 +452,7 @@ def main():
         rule=prop.get('rule', ''), samples=samples[:10] or ['(no cases)'],
         input_distribution=hist, model_tags=ev['tags'],
         correspondence_mismatches=len(ev['corr']), monitor_failures=len(ev['monitor']) + len(ev['direct']),
-        search_cases=searched, proof_ok=proofs['ok'],
+        search_cases=searched, proof_ok=proofs['ok'], race_detector=race_note,
     )
     evidence = dict(property_id=pid, tier=tier, seed=seed, level=prop.get('level', 'proof'), coverage=coverage,
                     assumptions=prop.get('assumptions', []), wall_s=round(time.time() - t0, 2), violations=nviol)
